@@ -11,6 +11,14 @@ MACROS = {
         "#[kani::stub(crate::error_out_of_memory, %serr_out_of_memory)]" % E,
         "#[kani::stub(crate::error_unsupported, %serr_unsupported)]" % E,
     ],
+    # LZMA (LZMAWriter) payload layer by contract, seen from LZIP / .lzma framing: see kani/enc/lzma_writer.rs
+    "PAYLOAD_LZMA_W": [
+        "#[kani::stub(LZMAWriter::new, crate::enc::lzma_writer::verif_kani::lzma_new_zeroed)]",
+        "#[kani::stub(LZMAWriter::finish, crate::enc::lzma_writer::verif_kani::lzma_finish_stub)]",
+        "#[kani::stub(crate::enc::lz::LZEncoder::fill_window, %sfill_window_stub)]" % LW,
+        "#[kani::stub(crate::enc::lz::LZEncoder::set_finishing, %slz_noop_stub)]" % LW,
+        "#[kani::stub(crate::enc::encoder::LZMAEncoder::encode_for_lzma1, crate::enc::lzma_writer::verif_kani::encode_for_lzma1_stub)]",
+    ],
     # LZMA2 payload layer by contract, seen from a container (XZ) writer: see kani/enc/lzma2_writer.rs
     "PAYLOAD_W": [
         "#[kani::stub(LZMA2Writer::new, %slzma2_new_zeroed)]" % LW,
